@@ -11,6 +11,7 @@ import (
 	sdk "github.com/cosmos/cosmos-sdk/types"
 
 	authtypes "github.com/cosmos/cosmos-sdk/x/auth/types"
+	banktypes "github.com/cosmos/cosmos-sdk/x/bank/types"
 
 	ophosttypes "github.com/initia-labs/OPinit/x/ophost/types"
 
@@ -198,6 +199,55 @@ func privilegedSubmitters(env *L1Env, bridge uint64, recipient string) map[strin
 // c02Reentrant: while the escrow pays a withdrawal out, code running inside the bank transfer (a send restriction, a
 // transfer hook of the host chain) submits the very same claim again on the same context. It must be refused: the
 // withdrawal is paid once.
+// c02AcrossGenesis: a paid withdrawal stays paid when the chain is restarted from its exported genesis — also on a bridge
+// whose escrow was only ever filled by plain bank transfers (no deposit message), and on several bridges at once.
+func c02AcrossGenesis(run *mon.Run, rng *mon.Rand) {
+	run.Declare("C02.paid_stays_paid_across_genesis", 4)
+	for _, funding := range []string{"bank transfer only", "deposit"} {
+		env := newL1Env(2, []time.Duration{5 * time.Second, 5 * time.Second})
+		user := env.Users[1]
+		for _, b := range []uint64{1, 2} {
+			if funding == "deposit" {
+				if r := env.Deposit(env.Users[0], b, "l2", "uinit", math.NewInt(10_000), nil); r.Class != sim.OK {
+					panic(r.ErrString())
+				}
+			} else if r := env.L1.Deliver(banktypes.NewMsgSend(env.Users[0].Addr, refBridgeAddr(b), sdk.NewCoins(sdk.NewCoin("uinit", math.NewInt(10_000))))); r.Class != sim.OK {
+				panic(r.ErrString())
+			}
+		}
+		outs := map[uint64]*ProposedOutput{}
+		for _, b := range []uint64{1, 2} {
+			outs[b] = env.ProposeTree(b, []Withdrawal{{b, 1, "l2a", user.String(), "uinit", 100}, {b, 2, "l2b", user.String(), "uinit", 200}}, ref.PadLast, rng)
+		}
+		env.L1.NextBlock(6 * time.Second)
+		var tr []string
+		for _, b := range []uint64{1, 2} {
+			r := env.L1.Deliver(outs[b].Claim(0, user.String()))
+			tr = append(tr, fmt.Sprintf("escrow of bridge %d filled by %s; claim of leaf 0 -> %s", b, funding, r.Class))
+		}
+		ok := migrateL1(env)
+		tr = append(tr, fmt.Sprintf("chain exported and restarted from its genesis -> imported=%v", ok))
+		if !ok {
+			run.Count("C02.genesis_round_trip_not_possible")
+			continue
+		}
+		for _, b := range []uint64{1, 2} {
+			leaf := outs[b].Ws[0].Leaf()
+			q, err := env.L1.Q.Claimed(env.L1.Ctx, &ophosttypes.QueryClaimedRequest{BridgeId: b, WithdrawalHash: leaf[:]})
+			before := env.L1.BK.GetBalance(env.L1.Ctx, user.Addr, "uinit").Amount
+			r := env.L1.Deliver(outs[b].Claim(0, env.Users[3].String()))
+			got := env.L1.BK.GetBalance(env.L1.Ctx, user.Addr, "uinit").Amount.Sub(before)
+			run.Evaluations++
+			tr = append(tr, fmt.Sprintf("after the restart: Claimed(bridge %d, leaf 0) = %v err=%v; the claim submitted again -> %s, recipient received %s", b, q, err, r.Class, got))
+			run.Check("C02.paid_stays_paid_across_genesis", err == nil && q.Claimed && r.Class != sim.OK && got.IsZero(), "c02.paid_again_after_genesis", tr, "a withdrawal paid before the chain was restarted from its exported genesis: Claimed=%v, re-submission %s, paid %s more", q, r.Class, got)
+			// the unpaid sibling is still claimable
+			r2 := env.L1.Deliver(outs[b].Claim(1, user.String()))
+			run.Check("C02.first_payment_accepted", r2.Class == sim.OK, "c02.unpaid_claim_lost_in_genesis", append(tr, fmt.Sprintf("claim of the unpaid leaf 1 of bridge %d -> %s %s", b, r2.Class, r2.ErrString())), "an unpaid withdrawal could not be claimed after the restart: %s", r2.ErrString())
+		}
+		run.Distinct("C02/genesis/" + funding)
+	}
+}
+
 func c02Reentrant(run *mon.Run, rng *mon.Rand) {
 	run.Declare("C02.reentrant_claim_paid_once", 4)
 	for _, nLeaves := range []int{1, 2, 5} {
@@ -264,6 +314,7 @@ func checkC02(run *mon.Run, rng *mon.Rand, thorough bool) {
 		run.Declare(c, 10)
 	}
 	c02Reentrant(run, rng)
+	c02AcrossGenesis(run, rng)
 	period := 10 * time.Second
 	env := newL1Env(2, []time.Duration{period, period})
 	user := sim.NewAccount("c02recipient")
